@@ -11,6 +11,7 @@ mod sexp;
 mod subalg;
 mod subj;
 mod timed;
+mod tree;
 mod val;
 
 use sexp::Sexp;
@@ -34,6 +35,7 @@ fn run_case(case: &Sexp) -> String {
     "atform" => timed::run_atform(body),
     "subalg" => subalg::run_subalg(body),
     "retire" => retire::run_retire(body),
+    "tree" => tree::run_tree(body),
     "finalize" => finalize::run_finalize(body),
     "finalize_race" => finalize::run_finalize_race(body),
     "subject" => subj::run_subject(body),
@@ -48,7 +50,7 @@ fn run_case(case: &Sexp) -> String {
 /// hang is an observation, never a hung check.
 fn may_hang(case: &Sexp) -> bool {
   let l = case.list();
-  matches!(l[2].atom(), "flatten") && l[3].atom() == "threads"
+  matches!(l[2].atom(), "flatten" | "finalize") && l[3].atom() == "threads"
 }
 
 fn run_guarded(case: Sexp) -> String {
